@@ -128,3 +128,60 @@ class OptProtocol:
                     for st in ast.walk(self.fi.node):
                         if isinstance(st, ast.Assign) and any(isinstance(t, ast.Name) and t.id == n.id for t in st.targets):
                             exprs.append(st.value)
+
+
+# ---- shared structural rules used by several property checks ---------------------------------------------------------------
+import ast as _ast
+import re as _re
+
+MEMO_DECORATORS = _re.compile(r"(lru_cache|functools\.cache|\bcache\b|cached_property|memoi[sz]e)")
+
+
+def no_memoisation(ctx, model, prop, rule, prefixes, why):
+    """no function of the given modules is wrapped in a caching decorator: such a cache is keyed by argument hash / identity
+    (adsorbates and materials hash by name, model objects are mutable), so a later call can return the answer computed for
+    other parameters - `why` says what that breaks for the property at hand"""
+    from .core import Finding
+    n = 0
+    for fi in model.all_functions():
+        if not any(fi.qualname.startswith(p) for p in prefixes):
+            continue
+        n += 1
+        for d in fi.decorators:
+            if MEMO_DECORATORS.search(d):
+                ctx.ob(False, Finding(f"{prop}.{rule}", fi.where, f"{fi.short}|memoised:{d}",
+                                      f"{fi.short} is memoised with @{d}: {why}"))
+    ctx.ob(True, nontrivial_key=("memo-scan", tuple(prefixes)))
+    ctx.analysed[f"functions scanned for caching decorators ({', '.join(prefixes)})"] = n
+    if n == 0:
+        from .core import AnalysisError
+        raise AnalysisError(f"no functions found under {prefixes}")
+
+
+def conversions_drop_caches(ctx, model, prop, rule):
+    """every PointIsotherm.convert_* method that stores converted data resets both interpolator caches unconditionally afterwards"""
+    from .core import Finding, AnalysisError
+    ci = model.cls("pygaps.core.pointisotherm.PointIsotherm")
+    n = 0
+    for name in ("convert_pressure", "convert_loading", "convert_material"):
+        fi = ci.methods.get(name)
+        if fi is None:
+            raise AnalysisError(f"anchor missing: PointIsotherm.{name}")
+        body = fi.node.body
+        last_store = None
+        for i, st in enumerate(body):
+            for x in _ast.walk(st):
+                if isinstance(x, _ast.Assign) and any(isinstance(t, _ast.Subscript) and _ast.unparse(t.value) == "self.data_raw" for t in x.targets):
+                    last_store = i
+        if last_store is None:
+            raise AnalysisError(f"{name}: no store into self.data_raw found")
+        n += 1
+        resets = {f: any(isinstance(st, _ast.Assign) and any(_ast.unparse(t) == f"self.{f}" for t in st.targets)
+                         and isinstance(st.value, _ast.Constant) and st.value.value is None for st in body[last_store + 1:])
+                  for f in ("l_interpolator", "p_interpolator")}
+        ctx.ob(all(resets.values()), Finding(
+            f"{prop}.{rule}", fi.where, f"{name}|cache-reset-conditional:{[f for f, ok in resets.items() if not ok]}",
+            f"{name} stores converted data but does not unconditionally reset {[f for f, ok in resets.items() if not ok]} afterwards: "
+            "after a conversion that changes only the unit (same basis/mode) loading_at / pressure_at keep interpolating the old numbers "
+            "under the new labels"), nontrivial_key=("reset", name))
+    return n
